@@ -34,10 +34,11 @@ type instVariant struct {
 	stub         bool
 	resets       bool
 	unroll       bool
-	source       string // corpus source file relative to /verif/corpus (default m/ifaces.go)
-	srcPkg       string // its package name
-	formatter    string // default goimports
-	outOfPkg     bool   // generate into a sub-directory "mocks" as package mocks (default: next to the interface)
+	source       string   // corpus source file relative to /verif/corpus (default m/ifaces.go)
+	srcPkg       string   // its package name
+	extraDirs    []string // further directories of /verif/corpus to copy into the scratch module (packages the source imports)
+	formatter    string   // default goimports
+	outOfPkg     bool     // generate into a sub-directory "mocks" as package mocks (default: next to the interface)
 }
 
 var matryerVariants = []instVariant{
@@ -128,6 +129,11 @@ func (e *instEnv) generate(variants []instVariant) (root string, err error) {
 		}
 		dir := filepath.Join(root, v.pkg)
 		os.MkdirAll(dir, 0o755)
+		for _, d := range v.extraDirs {
+			if out, e3 := exec.Command("cp", "-r", filepath.Join(src, d), filepath.Join(root, d)).CombinedOutput(); e3 != nil {
+				return root, fmt.Errorf("copying corpus directory %s: %v %s", d, e3, out)
+			}
+		}
 		// the corpus source, with only its package clause renamed (mechanical)
 		renamed := strings.Replace(string(text), "\npackage "+srcPkg+"\n", "\npackage "+v.pkg+"\n", 1)
 		os.WriteFile(filepath.Join(dir, "ifaces.go"), []byte(renamed), 0o644)
@@ -499,6 +505,17 @@ func instancePhase(cr *checkResult, update bool) {
 	}
 	if cr.tier == "thorough" {
 		// further template-data combinations (the quick tier's baseline does not list them)
+		wide := instVariant{source: "w/ifaces.go", srcPkg: "w", extraDirs: []string{"other"}}
+		if cr.prop != "C03" {
+			mw := wide
+			mw.pkg, mw.template, mw.templateData, mw.resets = "mw", "matryer", "{skip-ensure: false, with-resets: true}", true
+			variants = append(variants, mw)
+		}
+		if cr.prop != "C04" {
+			tw := wide
+			tw.pkg, tw.template, tw.templateData, tw.unroll = "tw", "testify", "{unroll-variadic: true}", true
+			variants = append(variants, tw)
+		}
 		if cr.prop != "C03" {
 			variants = append(variants,
 				instVariant{pkg: "mr", template: "matryer", templateData: "{skip-ensure: false, stub-impl: true, with-resets: true}", stub: true, resets: true},
